@@ -105,6 +105,14 @@ pub enum TOp {
     Reset,
     Tick,
     DropWithMessage(String),
+    /// with_finish(WithMessage(text)) (or AbandonWithMessage when the flag is set): stored for later
+    WithFinishMessage(String, bool),
+    /// finish_using_style(): applies whatever finish behaviour is stored
+    FinishUsingStyle,
+    /// keep a copy of the bar's current style (ProgressBar::style()) for later
+    StashStyle,
+    /// set_style with the copy taken earlier (it was taken at whatever tab width the bar had then)
+    SetStashedStyle,
 }
 
 #[derive(Debug, Clone, Serialize, Deserialize)]
@@ -146,6 +154,10 @@ fn op_strategy() -> BoxedStrategy<TOp> {
         1 => text_strategy().prop_map(TOp::AbandonWithMessage),
         1 => Just(TOp::Reset),
         1 => Just(TOp::Tick),
+        1 => (text_strategy(), any::<bool>()).prop_map(|(m, a)| TOp::WithFinishMessage(m, a)),
+        1 => Just(TOp::FinishUsingStyle),
+        1 => Just(TOp::StashStyle),
+        1 => Just(TOp::SetStashedStyle),
     ]
     .boxed()
 }
@@ -160,6 +172,39 @@ fn case_strategy(tier: Tier) -> BoxedStrategy<TabCase> {
             TabCase { style0, ops, hidden }
         })
         .boxed()
+}
+
+fn decode_tabs(u: &mut FuzzInput) -> TabCase {
+    fn text(u: &mut FuzzInput) -> String {
+        (0..u.n(5)).map(|_| ["a", "bc", "\t", "\t\t", " ", "x"][u.n(5)]).collect()
+    }
+    let n = TEMPLATES.len() as u8;
+    let style0 = u.n(n as usize - 1) as u8;
+    let hidden = if u.n(3) == 0 { Some((u.n(2) as u8, u.n(11) as u8)) } else { None };
+    let mut ops = vec![];
+    while !u.empty() && ops.len() < 30 {
+        ops.push(match u.n(17) {
+            0..=2 => TOp::SetTabWidth(u.n(16)),
+            3 => TOp::WithTabWidth(u.n(16)),
+            4 => TOp::SetStyle(u.n(n as usize - 1) as u8),
+            5 => TOp::WithStyle(u.n(n as usize - 1) as u8),
+            6 => TOp::ReTemplate(u.n(n as usize - 1) as u8),
+            7 | 8 => TOp::SetMessage(text(u)),
+            9 => TOp::WithMessage(text(u)),
+            10 => TOp::SetPrefix(text(u)),
+            11 => TOp::WithPrefix(text(u)),
+            12 => if u.bool() { TOp::FinishWithMessage(text(u)) } else { TOp::AbandonWithMessage(text(u)) },
+            13 => if u.bool() { TOp::Reset } else { TOp::Tick },
+            14 => TOp::WithFinishMessage(text(u), u.bool()),
+            15 => TOp::FinishUsingStyle,
+            16 => TOp::StashStyle,
+            _ => TOp::SetStashedStyle,
+        });
+    }
+    if u.n(3) == 0 {
+        ops.push(TOp::DropWithMessage(text(u)));
+    }
+    TabCase { style0, ops, hidden }
 }
 
 fn run_tabs(c: &TabCase) -> CaseResult {
@@ -183,6 +228,10 @@ fn run_tabs(c: &TabCase) -> CaseResult {
     // (text has a tab, set at op index); a width change after that index makes the case non-trivial
     let mut tab_text_at: Option<usize> = if TEMPLATES[c.style0 as usize % TEMPLATES.len()].iter().any(|s| matches!(s, Seg::Lit(l) if l.contains('\t')) || matches!(s, Seg::Ck | Seg::Ck2)) { Some(0) } else { None };
     let mut changed_after = false;
+    // the text of a stored ProgressFinish::WithMessage / AbandonWithMessage (default: AndClear, no text)
+    let mut stored_finish: Option<String> = None;
+    // (style copied from the bar, template index it renders)
+    let stash: std::cell::RefCell<Option<(ProgressStyle, u8)>> = std::cell::RefCell::new(None);
     for (i, op) in c.ops.iter().enumerate() {
         clock::advance(std::time::Duration::from_millis(3));
         let mut cur = pb.take().unwrap();
@@ -245,6 +294,32 @@ fn run_tabs(c: &TabCase) -> CaseResult {
                     cur.tick();
                     cur
                 }
+                TOp::WithFinishMessage(m, abandon) => {
+                    if *abandon {
+                        cur.with_finish(ProgressFinish::AbandonWithMessage(m.clone().into()))
+                    } else {
+                        cur.with_finish(ProgressFinish::WithMessage(m.clone().into()))
+                    }
+                }
+                TOp::StashStyle => {
+                    *stash.borrow_mut() = Some((cur.style(), tmpl));
+                    cur
+                }
+                TOp::SetStashedStyle => {
+                    if let Some((st, _)) = stash.borrow().as_ref() {
+                        cur.set_style(st.clone());
+                    }
+                    cur
+                }
+                TOp::FinishUsingStyle => {
+                    // (with the default AndClear nothing would stay on screen to look at)
+                    if stored_finish.is_some() {
+                        cur.finish_using_style();
+                    } else {
+                        cur.tick();
+                    }
+                    cur
+                }
                 TOp::DropWithMessage(m) => {
                     cur.reset();
                     let cur = cur.with_finish(ProgressFinish::WithMessage(m.clone().into()));
@@ -277,7 +352,26 @@ fn run_tabs(c: &TabCase) -> CaseResult {
                     tab_text_at.get_or_insert(i);
                 }
             }
-            TOp::Reset | TOp::Tick => {}
+            TOp::Reset | TOp::Tick | TOp::StashStyle => {}
+            TOp::SetStashedStyle => {
+                if let Some((_, t)) = stash.borrow().as_ref() {
+                    tmpl = *t;
+                    tab_text_at.get_or_insert(i);
+                    v.label("style_taken_from_the_bar_earlier_set_again");
+                }
+            }
+            TOp::WithFinishMessage(m, _) => {
+                stored_finish = Some(m.clone());
+                if m.contains('\t') {
+                    tab_text_at.get_or_insert(i);
+                }
+            }
+            TOp::FinishUsingStyle => {
+                if let Some(m) = &stored_finish {
+                    msg = m.clone();
+                    v.label("stored_finish_message_applied");
+                }
+            }
         }
         pb = r;
         let segs = TEMPLATES[tmpl as usize % TEMPLATES.len()];
@@ -332,9 +426,9 @@ pub fn property() -> Property {
             cases: |t| t.pick(6_000, 1_200_000),
             run: run_tabs,
             signature: no_signature,
-            essential: &["width_change_after_tab_text", "retemplate_of_cloned_style", "width_zero", "drop_with_message", "finish_message_with_tab", "configured_while_hidden_then_shown"],
+            essential: &["width_change_after_tab_text", "retemplate_of_cloned_style", "width_zero", "drop_with_message", "finish_message_with_tab", "configured_while_hidden_then_shown", "stored_finish_message_applied", "style_taken_from_the_bar_earlier_set_again"],
             workers: w,
-            decode: None,
+            decode: Some(decode_tabs),
         })],
     }
 }
